@@ -380,7 +380,13 @@ func c11Exec(in []string) []string {
 					files[j] = osf
 				} else if (len(f.content)+j)%3 == 0 {
 					// the library's own way of naming a reader (runtime.NamedReader): no declared type either
-					files[j] = runtime.NamedReader(f.name, &base.c11ReadCloser)
+					if (len(f.content)+j)%2 == 0 {
+						files[j] = runtime.NamedReader(f.name, &base.c11ReadCloser)
+					} else {
+						// naming a stream that already has a name (of its own, or from an earlier NamedReader): the
+						// name asked for last is the file's name
+						files[j] = runtime.NamedReader(f.name, runtime.NamedReader("earlier-name.tmp", &base.c11ReadCloser))
+					}
 				} else {
 					files[j] = base
 				}
@@ -961,11 +967,20 @@ func c11OSFile(f c11FileIn, j int) *os.File {
 		return nil
 	}
 	p := filepath.Join(dir, f.name)
-	if err := os.WriteFile(p, []byte(f.content), 0o600); err != nil {
+	// every other real file is handed over positioned past a prefix: what is sent is what the reader would
+	// yield from where it stands, not the file from its beginning
+	prefix := ""
+	if (len(f.content)+j)%2 == 0 {
+		prefix = "\x89PNG\r\n\x1a\nprefix-the-caller-has-already-consumed"
+	}
+	if err := os.WriteFile(p, []byte(prefix+f.content), 0o600); err != nil {
 		return nil
 	}
 	fh, err := os.Open(p)
 	if err != nil {
+		return nil
+	}
+	if _, err := fh.Seek(int64(len(prefix)), io.SeekStart); err != nil {
 		return nil
 	}
 	c11TmpFiles = append(c11TmpFiles, p) // removed when the next case starts (SetFileParam stats the path)
